@@ -102,6 +102,14 @@ def slice {α : Type} (l : List α) (a b : Nat) : Res (List α) :=
   if a ≤ b ∧ b ≤ l.length then ok ((l.drop a).take (b - a)) else panic
 /-- `assert!(c)` -/
 def assert (c : Bool) : Res Unit := if c then ok () else panic
+/-- `&l[a..=b]` (`a > b + 1` or `b ≥ len` panics) -/
+def sliceIncl {α : Type} (l : List α) (a b : Nat) : Res (List α) :=
+  if a ≤ b + 1 ∧ b < l.length then ok ((l.drop a).take (b + 1 - a)) else panic
+/-- `o.expect("..")` / `o.unwrap()` (`None` panics) -/
+def expect {α : Type} (o : Option α) : Res α :=
+  match o with
+  | some a => ok a
+  | none => panic
 
 /-! ### the operations succeed inside the range (simp lemmas for the equality proofs) -/
 
@@ -128,5 +136,43 @@ theorem setIdx_ok {α : Type} {l : List α} {i : Nat} {v : α} (h : i < l.length
 theorem slice_ok {α : Type} {l : List α} {a b : Nat} (h1 : a ≤ b) (h2 : b ≤ l.length) :
     slice l a b = ok ((l.drop a).take (b - a)) := by simp [slice, h1, h2]
 theorem assert_ok {c : Bool} (h : c = true) : assert c = ok () := by simp [assert, h]
+theorem sliceIncl_ok {α : Type} {l : List α} {a b : Nat} (h1 : a ≤ b + 1) (h2 : b < l.length) :
+    sliceIncl l a b = ok ((l.drop a).take (b + 1 - a)) := by simp [sliceIncl, h1, h2]
+@[simp] theorem expect_some {α : Type} (a : α) : expect (some a) = ok a := rfl
+@[simp] theorem expect_none {α : Type} : expect (none : Option α) = panic := rfl
+
+/-! ### iterators (genpm: `Matches::next` of the pattern matchers)
+
+The state of `text.into_iter().enumerate()` over a slice is the pair (items not yet consumed, counter) — the trusted
+reading of `IntoIterator<Item = &u8>` over a slice: it yields the slice's bytes in order.  A translated
+`fn next(&mut self) -> Option<T>` is a function `σ → Res (σ × Option T)` on the explicit iterator state; what a consumer
+of the iterator (`collect`, a `for` loop) sees is `drain next`: `next` is called until it returns `None`.  The fuel only
+bounds the number of calls (`Res.fuel` when it does not suffice). -/
+
+/-- all items of the iterator with the translated `next` function, from state `s` -/
+def drain {σ α : Type} (next : σ → Res (σ × Option α)) : Nat → σ → Res (List α)
+  | 0, _ => Res.fuel
+  | n + 1, s => do
+    let (s', r) ← next s
+    match r with
+    | none => pure []
+    | some a => do
+      let rest ← drain next n s'
+      pure (a :: rest)
+
+theorem drain_none {σ α : Type} (next : σ → Res (σ × Option α)) (n : Nat) (s s' : σ)
+    (h : next s = ok (s', none)) : drain next (n + 1) s = ok [] := by
+  simp [drain, h]
+
+theorem drain_some {σ α : Type} (next : σ → Res (σ × Option α)) (n : Nat) (s s' : σ) (a : α) (l : List α)
+    (h : next s = ok (s', some a)) (hl : drain next n s' = ok l) : drain next (n + 1) s = ok (a :: l) := by
+  simp [drain, h, hl]
+
+/-- `map.get(k).copied()` on a `vec_map::VecMap<V>` given by its entries (genpm: `BOM::delta`): the value stored under
+key `k`.  The entry list is the abstract content of the map (at most one entry per key in a real `VecMap`; with several,
+the first counts). -/
+def vecMapGet {α : Type} : List (Nat × α) → Nat → Option α
+  | [], _ => none
+  | (b, v) :: l, k => if b = k then some v else vecMapGet l k
 
 end RbV.Rs
